@@ -1,24 +1,25 @@
 SPECIFICATION Spec
 CONSTANTS
   Confs <- RefConfsK
-  InitRegs <- RefRegsK
+  InitRegs <- RefRegsKOnly
   ScopeNames = {"a", "b"}
-  MaxScopeDepth = 2
-  MaxStack = 3
+  MaxScopeDepth = 1
+  MaxStack = 2
   BindVals <- RefBindVals
-  MaxBindings = 6
-  Enabled = {"Bind", "EnterScope", "ExitScope", "Call", "GetBindings"}
+  MaxBindings = 2
+  Enabled = {"Bind", "EnterScope", "ExitScope"}
   NameOrder <- NamesRefsK
   HookUniverse = {}
-  BindApis = {"tuple", "text"}
+  BindApis = {"tuple"}
   FreshConfs = {}
   BindFilter <- RefFilter
   ConstVals = {}
-  QuerySpellings <- RefSpellings
+  QuerySpellings = {}
   ConstNames = {}
   CallMaxExtra = 0
   CallExtraKw = {"z"}
   CallsWithReq = FALSE
   DevKwEval = FALSE
-CONSTRAINT ExportConstraint
+VIEW ViewStoreOrdered
+INVARIANT C04_Refs
 CHECK_DEADLOCK FALSE
